@@ -573,6 +573,72 @@ fn format_directive<'entry>(
     Ok(res)
 }
 
+/// Verification hook: a canonical rendering of the parsed format string
+/// (`L<text>` literal, `F` flush, `D<letter>[<k>],<width or ->,<l|r>` directive).
+#[cfg(feature = "verif-hooks")]
+pub fn verif_parse(format: &str) -> Result<Vec<String>, String> {
+    fn tf(letter: char, t: &TimeFormat) -> String {
+        match t {
+            TimeFormat::Ctime => letter.to_ascii_lowercase().to_string(),
+            TimeFormat::SinceEpoch => format!("{}@", letter.to_ascii_uppercase()),
+            TimeFormat::Strftime(s) => format!("{}{}", letter.to_ascii_uppercase(), s),
+        }
+    }
+    let parsed = FormatString::parse(format).map_err(|e| e.to_string())?;
+    Ok(parsed
+        .components
+        .iter()
+        .map(|c| match c {
+            FormatComponent::Literal(s) => format!("L{s}"),
+            FormatComponent::Flush => "F".to_string(),
+            FormatComponent::Directive {
+                directive,
+                width,
+                justify,
+            } => {
+                let d = match directive {
+                    FormatDirective::AccessTime(t) => tf('a', t),
+                    FormatDirective::Blocks { large_blocks } => {
+                        if *large_blocks { "k" } else { "b" }.to_string()
+                    }
+                    FormatDirective::ChangeTime(t) => tf('c', t),
+                    FormatDirective::Depth => "d".to_string(),
+                    FormatDirective::Device => "D".to_string(),
+                    FormatDirective::Basename => "f".to_string(),
+                    FormatDirective::Filesystem => "F".to_string(),
+                    FormatDirective::Group { as_name } => {
+                        if *as_name { "g" } else { "G" }.to_string()
+                    }
+                    FormatDirective::Dirname => "h".to_string(),
+                    FormatDirective::StartingPoint => "H".to_string(),
+                    FormatDirective::Inode => "i".to_string(),
+                    FormatDirective::SymlinkTarget => "l".to_string(),
+                    FormatDirective::Permissions(PermissionsFormat::Octal) => "m".to_string(),
+                    FormatDirective::Permissions(PermissionsFormat::Symbolic) => "M".to_string(),
+                    FormatDirective::HardlinkCount => "n".to_string(),
+                    FormatDirective::Path {
+                        strip_starting_point,
+                    } => if *strip_starting_point { "P" } else { "p" }.to_string(),
+                    FormatDirective::Size => "s".to_string(),
+                    FormatDirective::Sparseness => "S".to_string(),
+                    FormatDirective::ModificationTime(t) => tf('t', t),
+                    FormatDirective::User { as_name } => {
+                        if *as_name { "u" } else { "U" }.to_string()
+                    }
+                    FormatDirective::Type { follow_links } => {
+                        if *follow_links { "Y" } else { "y" }.to_string()
+                    }
+                };
+                format!(
+                    "D{d},{},{}",
+                    width.map_or("-".to_string(), |w| w.to_string()),
+                    if *justify == Justify::Left { "l" } else { "r" }
+                )
+            }
+        })
+        .collect())
+}
+
 /// This matcher prints information about its files to stdout, following GNU
 /// find's printf syntax.
 pub struct Printf {
